@@ -68,6 +68,14 @@ pub mod site {
     pub const BACKREF_MATCH: u32 = 48;
     pub const FORCE_PROGRESS: u32 = 49;
     pub const ANALYZE_ZERO_LEN_GROUP: u32 = 50;
+    pub const OP_ATOM: u32 = 51;
+    pub const OP_CHARCLASS: u32 = 52;
+    pub const OP_BOL: u32 = 53;
+    pub const OP_EOL: u32 = 54;
+    pub const OP_END_PROGRAM: u32 = 55;
+    pub const CASE_BLIND: u32 = 56;
+    pub const CAPTURE_ENTER: u32 = 57;
+    pub const CHOICE_BRANCH: u32 = 58;
     pub const BLOCK_LOOKUP_CALL: u32 = 60;
     /// Probe only: fires inside the one-time table initialisation, which runs
     /// under the `OnceLock`; a simulator must never switch threads here.
